@@ -164,8 +164,9 @@ async def run_family(level, h, op, attacks, zero_value=False):
                 raw, state["sym"] = forge(state["attack"], ag, u, xu, req, raw, state["bit"])
                 state["forged_len"] = len(raw)
         return raw
-    real = _t.time
-    _t.time = lambda: 50000
+    import puresnmp.api.raw, puresnmp_plugins.security.usm  # noqa
+    _clk = patched_clock(lambda: 50000)
+    _clk.__enter__()
     out = []
     try:
         c = Client("192.0.2.1", drv_usm.make_creds(sc), sender=sender)
@@ -195,7 +196,7 @@ async def run_family(level, h, op, attacks, zero_value=False):
                 ok = False
             out[-1]["events"][0]["usable_after"] = ok
     finally:
-        _t.time = real
+        _clk.__exit__(None, None, None)
     return out, authentic_len
 
 
